@@ -57,6 +57,11 @@ def make_case(i, rng, tier):
             bounds = [b for b in o.boundaries if b <= k] + ([k] if k not in o.boundaries else [])
             lg = medium.write_swtpm_log(pre, sorted(set(bounds)), rng)
             tasks.append(dict(mk("swtpm", b""), data=lg.hex(), front="swtpm", source="counting"))
+            bb = sorted(set(bounds))
+            pc, _meta = medium.write_pcapng([pre[a:b] for a, b in zip(bb, bb[1:])], rng)
+            if medium.ref_pcapng_carried(pc) == pre:
+                # a packet capture of the same (prefix of the) traffic; sources vary, the front-end reads it as a whole
+                tasks.append(dict(mk("pcap", b""), data=pc.hex(), front="pcapng", source=rng.choice(("bytes", "gen", "list", "simfile")), chunks=[4096]))
     tasks, sched = common.perturb(rng, tasks, p_by=0.1)
     return {"input": {"root": inp["root"], "cc": inp["cc"], "enc": inp["enc"], "label": inp["label"], "cut": k, "len": n},
             "tasks": tasks, "schedule": sched}
